@@ -1,48 +1,208 @@
+// c06: pipeline commands mean the same however the stream is chunked.
+//
+//  1. processor level: real DataProcessor chains (SPL text -> real parser ->
+//     processor.AggsToDataProcessors -> New*DP) are fed the SAME table through a
+//     synthetic Streamer that cuts it at every split point (all 2-cuts, one row per
+//     batch, random multi-cuts incl. empty batches; EOF reported with or after the last
+//     batch).  Oracle: the rows returned for every cut equal the rows of the un-cut run
+//     (`<cmd>_chunk_dependent`), and for head / tail / dedup / windowed streamstats the
+//     un-cut run equals the documented meaning computed independently (`<cmd>_wrong_rows`).
+//     The observations go to Coq case files where the models of Pipe.v must reproduce them
+//     for every cut (including the per-cut results of the known windowed-streamstats defect).
+//  2. end to end: the same events ingested under different flush / rotation layouts and
+//     GOMAXPROCS values (worker processes), the same SPL through the real query path;
+//     results must agree across layouts (`e2e_<cmd>_layout_dependent`).
 package main
 
 import (
+	"context"
+	"encoding/json"
 	"fmt"
 	"io"
+	"math"
 	"os"
+	"os/exec"
+	"path/filepath"
 	"sort"
 	"strconv"
 	"strings"
+	"sync"
+	"time"
 
 	"github.com/siglens/siglens/pkg/ast/pipesearch"
 	"github.com/siglens/siglens/pkg/config"
+	eswriter "github.com/siglens/siglens/pkg/es/writer"
+	"github.com/siglens/siglens/pkg/segment/memory/limit"
+	"github.com/siglens/siglens/pkg/segment/query"
 	"github.com/siglens/siglens/pkg/segment/query/iqr"
 	"github.com/siglens/siglens/pkg/segment/query/processor"
 	sutils "github.com/siglens/siglens/pkg/segment/utils"
+	"github.com/siglens/siglens/pkg/segment/writer"
+	serverutils "github.com/siglens/siglens/pkg/server/utils"
+	vtable "github.com/siglens/siglens/pkg/virtualtable"
 	log "github.com/sirupsen/logrus"
+
+	"verifharness/vhlib"
 )
+
+// ---------- cells, rows, tables ----------
+type Cell struct {
+	K byte    // 0 null, 'i' integer, 'f' other number, 's' string, 'o' other
+	I int64   `json:",omitempty"`
+	F float64 `json:",omitempty"`
+	S string  `json:",omitempty"`
+}
+
+func (c Cell) canon() string {
+	switch c.K {
+	case 'i':
+		return "n:" + strconv.FormatInt(c.I, 10)
+	case 'f':
+		return "n:" + strconv.FormatFloat(c.F, 'g', -1, 64)
+	case 's':
+		return "s:" + c.S
+	case 'o':
+		return "o:" + c.S
+	}
+	return "null"
+}
+
+type NC struct {
+	Name string
+	C    Cell
+}
+type CRow []NC // sorted by name, nulls omitted
+
+func (r CRow) String() string {
+	parts := make([]string, len(r))
+	for i, nc := range r {
+		parts[i] = nc.Name + "=" + nc.C.canon()
+	}
+	return strings.Join(parts, ",")
+}
+func (r CRow) get(name string) Cell {
+	for _, nc := range r {
+		if nc.Name == name {
+			return nc.C
+		}
+	}
+	return Cell{}
+}
+func rowsStr(rs []CRow) []string {
+	out := make([]string, len(rs))
+	for i, r := range rs {
+		out[i] = r.String()
+	}
+	return out
+}
 
 type Table struct {
 	Cols []string
-	Rows [][]sutils.CValueEnclosure
+	Rows [][]Cell
 }
 
+const tsCol = "timestamp"
+
+func enclosure(c Cell) sutils.CValueEnclosure {
+	switch c.K {
+	case 'i':
+		return sutils.CValueEnclosure{Dtype: sutils.SS_DT_SIGNED_NUM, CVal: c.I}
+	case 'f':
+		return sutils.CValueEnclosure{Dtype: sutils.SS_DT_FLOAT, CVal: c.F}
+	case 's':
+		return sutils.CValueEnclosure{Dtype: sutils.SS_DT_STRING, CVal: c.S}
+	}
+	return sutils.CValueEnclosure{Dtype: sutils.SS_DT_BACKFILL, CVal: nil}
+}
+
+func cellOf(v sutils.CValueEnclosure) Cell {
+	if v.Dtype == sutils.SS_DT_BACKFILL || v.Dtype == sutils.SS_INVALID {
+		return Cell{}
+	}
+	num := func(f float64) Cell {
+		if f == math.Trunc(f) && math.Abs(f) < 9e15 {
+			return Cell{K: 'i', I: int64(f)}
+		}
+		return Cell{K: 'f', F: f}
+	}
+	switch x := v.CVal.(type) {
+	case nil:
+		return Cell{}
+	case string:
+		return Cell{K: 's', S: x}
+	case float64:
+		return num(x)
+	case int64:
+		return Cell{K: 'i', I: x}
+	case uint64:
+		return Cell{K: 'i', I: int64(x)}
+	case int:
+		return Cell{K: 'i', I: int64(x)}
+	case bool:
+		return Cell{K: 'o', S: strconv.FormatBool(x)}
+	default:
+		return Cell{K: 'o', S: fmt.Sprintf("%T:%v", x, x)}
+	}
+}
+
+func (t *Table) crow(i int) CRow {
+	var r CRow
+	for ci, c := range t.Cols {
+		if c == tsCol || t.Rows[i][ci].K == 0 {
+			continue
+		}
+		r = append(r, NC{c, t.Rows[i][ci]})
+	}
+	sort.Slice(r, func(a, b int) bool { return r[a].Name < r[b].Name })
+	return r
+}
+func (t *Table) crows() []CRow {
+	out := make([]CRow, len(t.Rows))
+	for i := range t.Rows {
+		out[i] = t.crow(i)
+	}
+	return out
+}
+// rows with the null cells kept (a column that is null everywhere still exists)
+func (t *Table) crowsFull() []CRow {
+	out := make([]CRow, len(t.Rows))
+	for i := range t.Rows {
+		var r CRow
+		for ci, c := range t.Cols {
+			if c != tsCol {
+				r = append(r, NC{c, t.Rows[i][ci]})
+			}
+		}
+		sort.Slice(r, func(a, b int) bool { return r[a].Name < r[b].Name })
+		out[i] = r
+	}
+	return out
+}
+func (t *Table) sub(lo, hi int) *Table { return &Table{Cols: t.Cols, Rows: t.Rows[lo:hi]} }
+
+// ---------- the synthetic upstream ----------
 type batchStreamer struct {
 	t       *Table
-	cuts    []int // batch end offsets, nondecreasing, last = len(rows)
+	ends    []int // batch end offsets, non-decreasing, last = len(rows)
 	pos     int
-	eofWith bool // EOF returned together with the last batch
+	eofWith bool // io.EOF returned together with the last batch
 }
 
 func (s *batchStreamer) Fetch() (*iqr.IQR, error) {
-	if s.pos >= len(s.cuts) {
+	if s.pos >= len(s.ends) {
 		return nil, io.EOF
 	}
 	start := 0
 	if s.pos > 0 {
-		start = s.cuts[s.pos-1]
+		start = s.ends[s.pos-1]
 	}
-	end := s.cuts[s.pos]
+	end := s.ends[s.pos]
 	s.pos++
 	kv := map[string][]sutils.CValueEnclosure{}
 	for ci, c := range s.t.Cols {
 		vals := make([]sutils.CValueEnclosure, 0, end-start)
 		for r := start; r < end; r++ {
-			vals = append(vals, s.t.Rows[r][ci])
+			vals = append(vals, enclosure(s.t.Rows[r][ci]))
 		}
 		kv[c] = vals
 	}
@@ -50,39 +210,16 @@ func (s *batchStreamer) Fetch() (*iqr.IQR, error) {
 	if err := q.AppendKnownValues(kv); err != nil {
 		return nil, err
 	}
-	if s.eofWith && s.pos >= len(s.cuts) {
+	if s.eofWith && s.pos >= len(s.ends) {
 		return q, io.EOF
 	}
 	return q, nil
 }
 func (s *batchStreamer) Rewind()        { s.pos = 0 }
 func (s *batchStreamer) Cleanup()       {}
-func (s batchStreamer) String() string { return "<batch streamer>" }
+func (s batchStreamer) String() string { return "<c06 batch streamer>" }
 
-func canonVal(v sutils.CValueEnclosure) (string, bool) {
-	switch v.Dtype {
-	case sutils.SS_DT_BACKFILL, sutils.SS_INVALID:
-		return "", false
-	}
-	switch x := v.CVal.(type) {
-	case nil:
-		return "", false
-	case string:
-		return "s:" + x, true
-	case float64:
-		return "n:" + strconv.FormatFloat(x, 'g', -1, 64), true
-	case int64:
-		return "n:" + strconv.FormatFloat(float64(x), 'g', -1, 64), true
-	case uint64:
-		return "n:" + strconv.FormatFloat(float64(x), 'g', -1, 64), true
-	case bool:
-		return "b:" + strconv.FormatBool(x), true
-	default:
-		return fmt.Sprintf("o:%T:%v", x, x), true
-	}
-}
-
-func rowsOf(q *iqr.IQR) ([]string, error) {
+func rowsOf(q *iqr.IQR) ([]CRow, error) {
 	if q == nil {
 		return nil, nil
 	}
@@ -92,11 +229,12 @@ func rowsOf(q *iqr.IQR) ([]string, error) {
 	}
 	names := []string{}
 	for c := range cols {
-		names = append(names, c)
+		if c != tsCol {
+			names = append(names, c)
+		}
 	}
 	sort.Strings(names)
 	n := q.NumberOfRecords()
-	out := make([]string, n)
 	colv := map[string][]sutils.CValueEnclosure{}
 	for _, c := range names {
 		v, err := q.ReadColumn(c)
@@ -105,82 +243,1372 @@ func rowsOf(q *iqr.IQR) ([]string, error) {
 		}
 		colv[c] = v
 	}
+	out := make([]CRow, n)
 	for i := 0; i < n; i++ {
-		parts := []string{}
+		var r CRow
 		for _, c := range names {
 			if i < len(colv[c]) {
-				if s, ok := canonVal(colv[c][i]); ok {
-					parts = append(parts, c+"="+s)
+				if cell := cellOf(colv[c][i]); cell.K != 0 {
+					r = append(r, NC{c, cell})
 				}
 			}
 		}
-		out[i] = strings.Join(parts, ",")
+		out[i] = r
 	}
 	return out, nil
 }
 
-func runChain(spl string, t *Table, cuts []int, eofWith bool) (rows []string, fetches int, err error) {
+type runResult struct {
+	Rows    []CRow
+	Fetches []int // rows of every non-nil output, in Fetch order
+	Err     string
+}
+
+// sizes -> cumulative ends
+func endsOf(sizes []int) []int {
+	ends := make([]int, len(sizes))
+	acc := 0
+	for i, s := range sizes {
+		acc += s
+		ends[i] = acc
+	}
+	return ends
+}
+
+func runChain(spl string, t *Table, sizes []int, eofWith bool) (res runResult) {
 	defer func() {
 		if r := recover(); r != nil {
-			err = fmt.Errorf("panic: %v", r)
+			res.Err = fmt.Sprintf("panic: %v", r)
 		}
 	}()
-	_, aggs, _, perr := pipesearch.ParseQuery(spl, 0, "Splunk QL")
+	_, aggs, _, perr := pipesearch.ParseQuery("* | "+spl, 0, "Splunk QL")
 	if perr != nil {
-		return nil, 0, perr
+		res.Err = "parse: " + perr.Error()
+		return
 	}
 	dps := processor.AggsToDataProcessors(aggs, nil)
 	if len(dps) == 0 {
-		return nil, 0, fmt.Errorf("no data processors for %q", spl)
+		res.Err = "no data processors"
+		return
 	}
-	src := &batchStreamer{t: t, cuts: cuts, eofWith: eofWith}
+	src := &batchStreamer{t: t, ends: endsOf(sizes), eofWith: eofWith}
 	dps[0].SetStreams([]*processor.CachedStream{processor.NewCachedStream(src)})
 	for i := 1; i < len(dps); i++ {
 		dps[i].SetStreams([]*processor.CachedStream{processor.NewCachedStream(dps[i-1])})
 	}
 	last := dps[len(dps)-1]
-	for fetches = 0; fetches < 10000; fetches++ {
+	for n := 0; ; n++ {
+		if n > 4*len(sizes)+16 {
+			res.Err = "no EOF after many fetches"
+			return
+		}
 		q, ferr := last.Fetch()
 		if ferr != nil && ferr != io.EOF {
-			return rows, fetches, ferr
+			res.Err = "fetch: " + ferr.Error()
+			return
 		}
-		rs, rerr := rowsOf(q)
-		if rerr != nil {
-			return rows, fetches, rerr
+		if q != nil {
+			rs, rerr := rowsOf(q)
+			if rerr != nil {
+				res.Err = "read: " + rerr.Error()
+				return
+			}
+			res.Rows = append(res.Rows, rs...)
+			res.Fetches = append(res.Fetches, len(rs))
 		}
-		rows = append(rows, rs...)
 		if ferr == io.EOF {
-			break
+			return
 		}
 	}
-	return rows, fetches, nil
 }
 
-func S(s string) sutils.CValueEnclosure  { return sutils.CValueEnclosure{Dtype: sutils.SS_DT_STRING, CVal: s} }
-func I(i int64) sutils.CValueEnclosure   { return sutils.CValueEnclosure{Dtype: sutils.SS_DT_SIGNED_NUM, CVal: i} }
-func U(i uint64) sutils.CValueEnclosure  { return sutils.CValueEnclosure{Dtype: sutils.SS_DT_UNSIGNED_NUM, CVal: i} }
-func Null() sutils.CValueEnclosure       { return sutils.CValueEnclosure{Dtype: sutils.SS_DT_BACKFILL, CVal: nil} }
+// ---------- Coq printers ----------
+type coqCtx struct {
+	fields map[string]string
+	order  []string
+}
 
-func main() {
-	log.SetLevel(log.PanicLevel)
-	config.InitializeTestingConfig(os.TempDir() + "/c06_explore/")
-	config.SetNewQueryPipelineEnabled(true)
-	t := &Table{Cols: []string{"timestamp", "id", "a", "b", "v", "s"}}
-	abs := []string{"x", "y", "z"}
-	for i := 0; i < 12; i++ {
-		row := []sutils.CValueEnclosure{U(uint64(1700000000000 - i*1000)), I(int64(i)), S(abs[i%3]), S(abs[(i*i+1)%3]), I(int64((7 * i) % 5)), S(fmt.Sprintf("k%d=w%d u%d", i%4, i%3, i))}
+func newCoqCtx() *coqCtx { return &coqCtx{fields: map[string]string{}} }
+func (c *coqCtx) field(name string) string {
+	if id, ok := c.fields[name]; ok {
+		return id
+	}
+	id := fmt.Sprintf("fld%d", len(c.order))
+	c.fields[name] = id
+	c.order = append(c.order, name)
+	return id
+}
+func (c *coqCtx) fieldList(names []string) string {
+	ids := make([]string, len(names))
+	for i, n := range names {
+		ids[i] = c.field(n)
+	}
+	return vhlib.CoqList(ids)
+}
+func (c *coqCtx) defs() string {
+	var sb strings.Builder
+	for i, n := range c.order {
+		fmt.Fprintf(&sb, "Definition fld%d : field := %s. (* %s *)\n", i, vhlib.CoqStr(n), strings.ReplaceAll(n, "*", "x"))
+	}
+	return sb.String()
+}
+func coqCell(c Cell) (string, bool) {
+	switch c.K {
+	case 'i':
+		return "VNum " + vhlib.CoqZ(c.I), true
+	case 's':
+		return "VStr " + vhlib.CoqStr(c.S), true
+	case 0:
+		return "VNull", true
+	}
+	return "", false
+}
+func (c *coqCtx) row(r CRow) (string, bool) {
+	items := make([]string, len(r))
+	for i, nc := range r {
+		v, ok := coqCell(nc.C)
+		if !ok {
+			return "", false
+		}
+		items[i] = "(" + c.field(nc.Name) + ", " + v + ")"
+	}
+	return vhlib.CoqList(items), true
+}
+func (c *coqCtx) rows(rs []CRow) (string, bool) {
+	items := make([]string, len(rs))
+	for i, r := range rs {
+		s, ok := c.row(r)
+		if !ok {
+			return "", false
+		}
+		items[i] = s
+	}
+	if len(items) == 0 {
+		return "(@nil row)", true
+	}
+	return vhlib.CoqListNL(items), true
+}
+func coqNats(xs []int) string {
+	items := make([]string, len(xs))
+	for i, x := range xs {
+		items[i] = strconv.Itoa(x) + "%nat"
+	}
+	return vhlib.CoqList(items)
+}
+func coqCuts(cuts [][]int) string {
+	items := make([]string, len(cuts))
+	for i, c := range cuts {
+		items[i] = coqNats(c)
+	}
+	return vhlib.CoqList(items)
+}
+
+// ---------- specs ----------
+const (
+	cmpOrdered = iota
+	cmpMultiset
+	cmpCounts // the sequence of the `count` column only (top / rare with ties)
+	cmpKeys   // sort with ties: multiset of rows + sequence of the sort key
+)
+
+type modelFn func(cc *coqCtx) string
+
+type Spec struct {
+	Family   string
+	SPL      string
+	Cmp      int
+	KeyCol   string                  // cmpKeys
+	Drop     []string                // columns removed before comparing (percent)
+	Model    modelFn                 // Coq command; nil = no model
+	Kind     string                  // chk | perm | rowwise | fillnull | chain
+	Chain    func(cc *coqCtx) string // Kind == chain: list of commands
+	Doc      func(in []CRow, cols []string) []CRow // documented meaning of the un-cut run (cols = columns of the input)
+	FetchFl  string                  // streaming_fl | bottleneck_fl | ""
+	Known    string                  // known class for cut dependence
+	DocKnown string                  // known class for Doc mismatch
+	Tables   string                  // "" = general, "distinct" = distinct counts per a, "num" = v always numeric, "xy" = a,b in {x,y}
+}
+
+func takeRows(in []CRow, n int) []CRow {
+	if n > len(in) {
+		n = len(in)
+	}
+	return in[:n]
+}
+type docFn = func([]CRow, []string) []CRow
+
+func docHead(n int) docFn {
+	return func(in []CRow, _ []string) []CRow { return takeRows(in, n) }
+}
+func docTail(n0 int) docFn {
+	return func(in []CRow, _ []string) []CRow {
+		n := n0
+		if n > len(in) {
+			n = len(in)
+		}
+		out := []CRow{}
+		for i := len(in) - 1; i >= len(in)-n; i-- {
+			out = append(out, in[i])
+		}
+		return out
+	}
+}
+func docDedup(limit int, fields []string) docFn {
+	return func(in []CRow, _ []string) []CRow {
+		seen := map[string]int{}
+		out := []CRow{}
+	rows:
+		for _, r := range in {
+			key := ""
+			for _, f := range fields {
+				c := r.get(f)
+				if c.K == 0 {
+					continue rows
+				}
+				key += strconv.Quote(c.canon()) + "|"
+			}
+			if seen[key] < limit {
+				out = append(out, r)
+			}
+			seen[key]++
+		}
+		return out
+	}
+}
+// fillnull value=<fill> without a field list: every column that occurs anywhere in the
+// input is filled in every row
+func docFillnullAll(fill string) docFn {
+	return func(in []CRow, cols []string) []CRow {
+		out := make([]CRow, len(in))
+		for i, r := range in {
+			o := r
+			for _, c := range cols {
+				if c == tsCol {
+					continue
+				}
+				if r.get(c).K == 0 {
+					o = withCell(o, c, Cell{K: 's', S: fill})
+				}
+			}
+			out[i] = o
+		}
+		return out
+	}
+}
+func withCell(r CRow, name string, c Cell) CRow {
+	var out CRow
+	for _, nc := range r {
+		if nc.Name != name {
+			out = append(out, nc)
+		}
+	}
+	out = append(out, NC{name, c})
+	sort.Slice(out, func(a, b int) bool { return out[a].Name < out[b].Name })
+	return out
+}
+func docWindowSum(w int, vf, outf string, count bool) docFn {
+	return func(in []CRow, _ []string) []CRow {
+		out := make([]CRow, len(in))
+		for i, r := range in {
+			s := int64(0)
+			for j := i; j >= 0 && j > i-w; j-- {
+				if count {
+					s++
+				} else {
+					s += in[j].get(vf).I
+				}
+			}
+			out[i] = withCell(r, outf, Cell{K: 'i', I: s})
+		}
+		return out
+	}
+}
+
+func dedupModel(limit int, fields []string, consecutive, keepempty, keepevents bool) modelFn {
+	return func(cc *coqCtx) string {
+		return fmt.Sprintf("(dedup_cmd (Hof htbl) {| d_limit := %d; d_fields := %s; d_consecutive := %v; d_keepempty := %v; d_keepevents := %v |})",
+			limit, cc.fieldList(fields), consecutive, keepempty, keepevents)
+	}
+}
+func ssModel(fn, field, out string, current bool, by []string, window int, global bool) modelFn {
+	return ssModelR(fn, field, out, current, by, window, global, false)
+}
+func ssModelR(fn, field, out string, current bool, by []string, window int, global, resetOnChange bool) modelFn {
+	return func(cc *coqCtx) string {
+		return fmt.Sprintf("(streamstats_cmd true {| ss_func := %s; ss_field := %s; ss_out := %s; ss_current := %v; ss_by := %s; ss_window := %d; ss_global := %v; ss_reset_on_change := %v |})",
+			fn, cc.field(field), cc.field(out), current, cc.fieldList(by), window, global, resetOnChange)
+	}
+}
+func headExprModel(k int, max string, null, keeplast bool) modelFn {
+	return func(cc *coqCtx) string {
+		return fmt.Sprintf("(head_expr_cmd (fun r => match get r %s with VNum z => Some (z <? %d)%%Z | _ => None end) {| h_max := %s; h_null := %v; h_keeplast := %v |})",
+			cc.field("v"), k, max, null, keeplast)
+	}
+}
+func lit(s string) modelFn { return func(*coqCtx) string { return s } }
+func topModel(isTop bool, limit int, fields []string) modelFn {
+	return func(cc *coqCtx) string {
+		return fmt.Sprintf("(toprare_cmd %v %d %s %s)", isTop, limit, cc.fieldList(fields), cc.field("count"))
+	}
+}
+func gstatsModel(by []string) modelFn {
+	return func(cc *coqCtx) string {
+		return fmt.Sprintf("(gstats_cmd %s %s %s %s)", cc.fieldList(by), cc.field("v"), cc.field("count(*)"), cc.field("sum(v)"))
+	}
+}
+
+const maxU64 = "18446744073709551615"
+
+func buildSpecs() []Spec {
+	var sp []Spec
+	add := func(s Spec) { sp = append(sp, s) }
+	// head
+	for _, n := range []int{0, 1, 3, 20} {
+		add(Spec{Family: "head", SPL: fmt.Sprintf("head %d", n), Model: lit(fmt.Sprintf("(head_cmd %d)", n)), Kind: "chk",
+			Doc: docHead(n), FetchFl: "streaming_fl"})
+	}
+	add(Spec{Family: "head", SPL: "head v<4", Model: headExprModel(4, maxU64, false, false), Kind: "chk"})
+	add(Spec{Family: "head", SPL: "head v<4 keeplast=true", Model: headExprModel(4, maxU64, false, true), Kind: "chk"})
+	add(Spec{Family: "head", SPL: "head v<4 null=true", Model: headExprModel(4, maxU64, true, false), Kind: "chk"})
+	add(Spec{Family: "head", SPL: "head limit=5 v<4 null=true keeplast=true", Model: headExprModel(4, "5", true, true), Kind: "chk"})
+	add(Spec{Family: "head", SPL: "head limit=2 v<9", Model: headExprModel(9, "2", false, false), Kind: "chk"})
+	// tail
+	for _, n := range []int{0, 1, 3, 20} {
+		add(Spec{Family: "tail", SPL: fmt.Sprintf("tail %d", n), Model: lit(fmt.Sprintf("(tail_cmd %d)", n)), Kind: "chk",
+			Doc: docTail(n), FetchFl: "bottleneck_fl"})
+	}
+	// dedup (field domains disjoint: no XOR-key collisions in this stream)
+	add(Spec{Family: "dedup", SPL: "dedup a", Model: dedupModel(1, []string{"a"}, false, false, false), Kind: "chk", Doc: docDedup(1, []string{"a"}), FetchFl: "streaming_fl"})
+	add(Spec{Family: "dedup", SPL: "dedup 2 a g", Model: dedupModel(2, []string{"a", "g"}, false, false, false), Kind: "chk", Doc: docDedup(2, []string{"a", "g"})})
+	add(Spec{Family: "dedup", SPL: "dedup 3 g", Model: dedupModel(3, []string{"g"}, false, false, false), Kind: "chk", Doc: docDedup(3, []string{"g"})})
+	add(Spec{Family: "dedup", SPL: "dedup a consecutive=true", Model: dedupModel(1, []string{"a"}, true, false, false), Kind: "chk"})
+	add(Spec{Family: "dedup", SPL: "dedup g consecutive=true", Model: dedupModel(1, []string{"g"}, true, false, false), Kind: "chk"})
+	add(Spec{Family: "dedup", SPL: "dedup a keepempty=true", Model: dedupModel(1, []string{"a"}, false, true, false), Kind: "chk"})
+	add(Spec{Family: "dedup", SPL: "dedup a keepevents=true", Model: dedupModel(1, []string{"a"}, false, false, true), Kind: "chk"})
+	add(Spec{Family: "dedup", SPL: "dedup 2 a g keepevents=true keepempty=true", Model: dedupModel(2, []string{"a", "g"}, false, true, true), Kind: "chk"})
+	add(Spec{Family: "dedup", SPL: "dedup 2 g consecutive=true keepempty=true", Model: dedupModel(2, []string{"g"}, true, true, false), Kind: "chk"})
+	// known: XOR key makes (x,y) and (y,x) one combination
+	add(Spec{Family: "dedupxy", SPL: "dedup a b", Model: dedupModel(1, []string{"a", "b"}, false, false, false), Kind: "chk", Doc: docDedup(1, []string{"a", "b"}),
+		DocKnown: "dedup_xor_key_collision", Tables: "xy"})
+	add(Spec{Family: "dedupxy", SPL: "dedup 2 a b", Model: dedupModel(2, []string{"a", "b"}, false, false, false), Kind: "chk", Doc: docDedup(2, []string{"a", "b"}),
+		DocKnown: "dedup_xor_key_collision", Tables: "xy"})
+	// row-wise
+	for _, s := range []string{"where v>1", "eval w=v*2", "fields a, v", "fields - a, s", "rename a as aa", "fillnull value=0 v a",
+		`rex field=s "k(?<kn>\d+)=w(?<wn>\d+)"`, `eval q=1 | regex s="k1"`, `eval q=1 | regex s!="k[12]"`, "bin span=2 v",
+		`makemv delim=" " s`, `makemv delim=" " s | mvexpand s`, "where v>1 | eval w=v+id | fields id, w"} {
+		fam := strings.Fields(s)[0]
+		if strings.Contains(s, "regex") {
+			fam = "regex"
+		}
+		if strings.Contains(s, "mvexpand") {
+			fam = "mvexpand"
+		}
+		add(Spec{Family: fam, SPL: s, Kind: "rowwise"})
+	}
+	// fillnull without a field list: two passes
+	add(Spec{Family: "fillnull", SPL: "fillnull value=0", Kind: "fillnull", Doc: docFillnullAll("0")})
+	// sort (unique keys -> fully determined order)
+	add(Spec{Family: "sort", SPL: "sort v, id"})
+	add(Spec{Family: "sort", SPL: "sort -v, id | head 3"})
+	add(Spec{Family: "sort", SPL: "sort a, -id"})
+	add(Spec{Family: "sort", SPL: "sort v", Cmp: cmpKeys, KeyCol: "v"})
+	// top / rare
+	add(Spec{Family: "top", SPL: "top a", Drop: []string{"percent"}, Model: topModel(true, 10, []string{"a"}), Kind: "chk", Tables: "distinct"})
+	add(Spec{Family: "top", SPL: "top limit=2 a", Drop: []string{"percent"}, Model: topModel(true, 2, []string{"a"}), Kind: "chk", Tables: "distinct"})
+	add(Spec{Family: "top", SPL: "top limit=3 a, g", Drop: []string{"percent"}, Model: topModel(true, 3, []string{"a", "g"}), Kind: "chk", Tables: "distinct"})
+	add(Spec{Family: "rare", SPL: "rare a", Drop: []string{"percent"}, Model: topModel(false, 10, []string{"a"}), Kind: "chk", Tables: "distinct"})
+	add(Spec{Family: "rare", SPL: "rare limit=2 a, g", Drop: []string{"percent"}, Model: topModel(false, 2, []string{"a", "g"}), Kind: "chk", Tables: "distinct"})
+	add(Spec{Family: "top", SPL: "top a", Cmp: cmpCounts})
+	add(Spec{Family: "top", SPL: "top limit=2 b", Cmp: cmpCounts})
+	add(Spec{Family: "rare", SPL: "rare b", Cmp: cmpCounts})
+	// stats
+	add(Spec{Family: "stats", SPL: "stats count, sum(v) by a", Cmp: cmpMultiset, Model: gstatsModel([]string{"a"}), Kind: "perm"})
+	add(Spec{Family: "stats", SPL: "stats count, sum(v) by a, g", Cmp: cmpMultiset, Model: gstatsModel([]string{"a", "g"}), Kind: "perm"})
+	add(Spec{Family: "stats", SPL: "stats count", Cmp: cmpMultiset})
+	add(Spec{Family: "stats", SPL: "stats sum(v), max(v), min(v) by g", Cmp: cmpMultiset})
+	add(Spec{Family: "stats", SPL: "stats dc(a) by g", Cmp: cmpMultiset})
+	// streamstats without a global window
+	add(Spec{Family: "streamstats", SPL: "streamstats count as c", Model: ssModel("SCount", "v", "c", true, nil, 0, true), Kind: "chk", FetchFl: "streaming_fl"})
+	add(Spec{Family: "streamstats", SPL: "streamstats sum(v) as sv by a", Model: ssModel("SSum", "v", "sv", true, []string{"a"}, 0, true), Kind: "chk"})
+	add(Spec{Family: "streamstats", SPL: "streamstats current=false sum(v) as sv", Model: ssModel("SSum", "v", "sv", false, nil, 0, true), Kind: "chk"})
+	add(Spec{Family: "streamstats", SPL: "streamstats current=false count as c by a", Model: ssModel("SCount", "v", "c", false, []string{"a"}, 0, true), Kind: "chk"})
+	add(Spec{Family: "streamstats", SPL: "streamstats window=2 global=false sum(v) as sv by a", Model: ssModel("SSum", "v", "sv", true, []string{"a"}, 2, false), Kind: "chk"})
+	add(Spec{Family: "streamstats", SPL: "streamstats window=3 global=false current=false count as c by g", Model: ssModel("SCount", "v", "c", false, []string{"g"}, 3, false), Kind: "chk"})
+	add(Spec{Family: "streamstats", SPL: "streamstats count as c, sum(v) as sv, max(v) as mx, min(v) as mn by g"})
+	add(Spec{Family: "streamstats", SPL: "streamstats avg(v) as av"})
+	// known: global window
+	add(Spec{Family: "sswindow", SPL: "streamstats window=3 sum(v) as sv", Model: ssModel("SSum", "v", "sv", true, nil, 3, true), Kind: "each",
+		Doc: docWindowSum(3, "v", "sv", false), Known: "streamstats_window_batch_dependent", Tables: "num"})
+	add(Spec{Family: "sswindow", SPL: "streamstats window=2 count as c", Model: ssModel("SCount", "v", "c", true, nil, 2, true), Kind: "each",
+		Doc: docWindowSum(2, "v", "c", true), Known: "streamstats_window_batch_dependent", Tables: "num"})
+	add(Spec{Family: "sswindow", SPL: "streamstats window=1 sum(v) as sv", Model: ssModel("SSum", "v", "sv", true, nil, 1, true), Kind: "each",
+		Doc: docWindowSum(1, "v", "sv", false), Known: "streamstats_window_batch_dependent", Tables: "num"})
+	add(Spec{Family: "sswindow", SPL: "streamstats window=2 current=false sum(v) as sv by g", Model: ssModel("SSum", "v", "sv", false, []string{"g"}, 2, true), Kind: "each",
+		Known: "streamstats_window_batch_dependent", Tables: "num"})
+	// known: reset_on_change forgets the previous key at every batch start
+	add(Spec{Family: "ssreset", SPL: "streamstats reset_on_change=true count as c by g", Model: ssModelR("SCount", "v", "c", true, []string{"g"}, 0, true, true), Kind: "each",
+		Known: "streamstats_reset_on_change_batch_dependent"})
+	add(Spec{Family: "ssreset", SPL: "streamstats reset_on_change=true sum(v) as sv by a", Model: ssModelR("SSum", "v", "sv", true, []string{"a"}, 0, true, true), Kind: "each",
+		Known: "streamstats_reset_on_change_batch_dependent"})
+	// reset_on_change without a by-clause never resets (bucket key stays "")
+	add(Spec{Family: "streamstats", SPL: "streamstats reset_on_change=true count as c", Model: ssModelR("SCount", "v", "c", true, nil, 0, true, true), Kind: "chk"})
+	// chains
+	add(Spec{Family: "chain", SPL: "dedup a | head 2", Kind: "chain", Chain: func(cc *coqCtx) string {
+		return "[" + dedupModel(1, []string{"a"}, false, false, false)(cc) + "; head_cmd 2]"
+	}})
+	add(Spec{Family: "chain", SPL: "streamstats count as c | tail 3", Kind: "chain", Chain: func(cc *coqCtx) string {
+		return "[" + ssModel("SCount", "v", "c", true, nil, 0, true)(cc) + "; tail_cmd 3]"
+	}})
+	add(Spec{Family: "chain", SPL: "dedup 2 g | streamstats sum(v) as sv | head 4", Kind: "chain", Chain: func(cc *coqCtx) string {
+		return "[" + dedupModel(2, []string{"g"}, false, false, false)(cc) + "; " + ssModel("SSum", "v", "sv", true, nil, 0, true)(cc) + "; head_cmd 4]"
+	}})
+	add(Spec{Family: "chain", SPL: "head 5 | tail 2", Kind: "chain", Chain: func(cc *coqCtx) string { return "[head_cmd 5; tail_cmd 2]" }})
+	add(Spec{Family: "chain", SPL: "tail 4 | head 2 | streamstats count as c", Kind: "chain", Chain: func(cc *coqCtx) string {
+		return "[tail_cmd 4; head_cmd 2; " + ssModel("SCount", "v", "c", true, nil, 0, true)(cc) + "]"
+	}})
+	add(Spec{Family: "chain", SPL: "where v>1 | dedup a | sort -v, id | head 2"})
+	add(Spec{Family: "chain", SPL: "eval w=v*2 | streamstats sum(w) as sw by g | tail 3"})
+	add(Spec{Family: "chain", SPL: "fillnull value=0 | stats count by a", Cmp: cmpMultiset})
+	add(Spec{Family: "chain", SPL: "fillnull value=7 v | where v>2 | top limit=5 g", Cmp: cmpCounts})
+	add(Spec{Family: "chain", SPL: `rex field=s "k(?<kn>\d+)=" | dedup kn | fields id, kn | tail 2`})
+	add(Spec{Family: "chain", SPL: "sort v, id | streamstats count as rank | where rank<=3"})
+	add(Spec{Family: "chain", SPL: "head 6 | stats sum(v) by g", Cmp: cmpMultiset})
+	add(Spec{Family: "chain", SPL: `makemv delim=" " s | mvexpand s | dedup s | head 5`})
+	return sp
+}
+
+// ---------- tables ----------
+func genTable(r *vhlib.Rng, kind string, n int) *Table {
+	t := &Table{Cols: []string{tsCol, "id", "a", "b", "g", "v", "s"}}
+	abc := []string{"x", "y", "z"}
+	if kind == "xy" {
+		abc = []string{"x", "y"}
+	}
+	g := "p"
+	var as []string
+	if kind == "distinct" {
+		// value combinations (a,g) and values a with pairwise distinct multiplicities
+		pool := []string{}
+		// a: x*1, y*2.., z*4..  and (a,g): (x,p)1 (y,p)2 (z,p)3 (z,q)5 -> a counts 1,2,8 ; scaled down by n
+		for _, e := range []struct {
+			a, g string
+			k    int
+		}{{"x", "p", 1}, {"y", "q", 2}, {"z", "p", 3}, {"z", "q", 5}} {
+			for i := 0; i < e.k; i++ {
+				pool = append(pool, e.a+e.g)
+			}
+		}
+		if n < len(pool) {
+			pool = pool[:0]
+			for _, e := range []struct {
+				a, g string
+				k    int
+			}{{"x", "p", 1}, {"y", "q", 2}, {"z", "p", 4}} {
+				for i := 0; i < e.k; i++ {
+					pool = append(pool, e.a+e.g)
+				}
+			}
+		}
+		for i := len(pool) - 1; i > 0; i-- {
+			j := r.Intn(i + 1)
+			pool[i], pool[j] = pool[j], pool[i]
+		}
+		as = pool
+		n = len(pool)
+	}
+	for i := 0; i < n; i++ {
+		row := make([]Cell, len(t.Cols))
+		row[0] = Cell{K: 'i', I: int64(1700000000000 - i*1000)}
+		row[1] = Cell{K: 'i', I: int64(i)}
+		nullp := 10
+		if kind == "xy" || kind == "distinct" {
+			nullp = 0
+		}
+		if !r.Chance(60) { // g comes in runs
+			g = vhlib.Pick(r, []string{"p", "q"})
+		}
+		if kind == "distinct" {
+			row[2] = Cell{K: 's', S: as[i][:1]}
+			row[4] = Cell{K: 's', S: as[i][1:]}
+		} else {
+			if !r.Chance(nullp) {
+				row[2] = Cell{K: 's', S: vhlib.Pick(r, abc)}
+			}
+			row[4] = Cell{K: 's', S: g}
+		}
+		if !r.Chance(nullp) {
+			row[3] = Cell{K: 's', S: vhlib.Pick(r, abc)}
+		}
+		if kind == "num" || kind == "distinct" || !r.Chance(nullp) {
+			row[5] = Cell{K: 'i', I: int64(r.Intn(7))}
+		}
+		row[6] = Cell{K: 's', S: fmt.Sprintf("k%d=w%d u%d", r.Intn(4), r.Intn(3), i)}
 		t.Rows = append(t.Rows, row)
 	}
-	spls := os.Args[1:]
-	for _, spl := range spls {
-		for _, cuts := range [][]int{{12}, {5, 10, 12}, {1, 2, 3, 4, 5, 6, 7, 8, 9, 10, 11, 12}, {0, 5, 5, 12}} {
-			for _, ew := range []bool{false, true} {
-				rows, nf, err := runChain(spl, t, cuts, ew)
-				fmt.Printf("%q cuts=%v eofWith=%v fetches=%d err=%v\n", spl, cuts, ew, nf, err)
-				for _, r := range rows {
-					fmt.Println("   ", r)
+	return t
+}
+
+func genCuts(r *vhlib.Rng, n int, extra int) [][]int {
+	cuts := [][]int{}
+	for k := 0; k <= n; k++ { // all 2-cuts (k = 0 and k = n give an empty batch)
+		cuts = append(cuts, []int{k, n - k})
+	}
+	if n > 1 {
+		ones := make([]int, n)
+		for i := range ones {
+			ones[i] = 1
+		}
+		cuts = append(cuts, ones)
+	}
+	for e := 0; e < extra; e++ {
+		var c []int
+		left := n
+		for left > 0 {
+			k := r.Intn(left + 1)
+			if r.Chance(15) {
+				k = 0
+			}
+			if k > 4 && r.Chance(60) {
+				k = 1 + r.Intn(4)
+			}
+			c = append(c, k)
+			left -= k
+		}
+		if r.Chance(20) {
+			c = append(c, 0)
+		}
+		if len(c) == 0 {
+			c = []int{0}
+		}
+		cuts = append(cuts, c)
+	}
+	return cuts
+}
+
+// ---------- comparison ----------
+func project(rs []CRow, drop []string) []CRow {
+	if len(drop) == 0 {
+		return rs
+	}
+	out := make([]CRow, len(rs))
+	for i, r := range rs {
+		var o CRow
+	cells:
+		for _, nc := range r {
+			for _, d := range drop {
+				if nc.Name == d {
+					continue cells
+				}
+			}
+			o = append(o, nc)
+		}
+		out[i] = o
+	}
+	return out
+}
+func sameOrdered(a, b []CRow) bool {
+	return strings.Join(rowsStr(a), "\n") == strings.Join(rowsStr(b), "\n") && len(a) == len(b)
+}
+func sameMultiset(a, b []CRow) bool {
+	x, y := rowsStr(a), rowsStr(b)
+	sort.Strings(x)
+	sort.Strings(y)
+	return strings.Join(x, "\n") == strings.Join(y, "\n") && len(a) == len(b)
+}
+func colSeq(rs []CRow, col string) string {
+	p := make([]string, len(rs))
+	for i, r := range rs {
+		p[i] = r.get(col).canon()
+	}
+	return strings.Join(p, ",")
+}
+func same(s *Spec, a, b []CRow) bool {
+	switch s.Cmp {
+	case cmpMultiset:
+		return sameMultiset(a, b)
+	case cmpCounts:
+		return colSeq(a, "count") == colSeq(b, "count")
+	case cmpKeys:
+		return sameMultiset(a, b) && colSeq(a, s.KeyCol) == colSeq(b, s.KeyCol)
+	}
+	return sameOrdered(a, b)
+}
+
+type caseFile struct {
+	name   string
+	cc     *coqCtx
+	defs   strings.Builder
+	checks []string
+	ncases int
+	ntab   int
+	bytes  int
+}
+
+func newCaseFile(name string) *caseFile { return &caseFile{name: name, cc: newCoqCtx()} }
+func (cf *caseFile) size() int {
+	n := cf.defs.Len()
+	for _, c := range cf.checks {
+		n += len(c)
+	}
+	return n
+}
+
+var hashSeen = map[string]uint64{}
+var hashCells = map[string]Cell{}
+
+func noteHashes(t *Table) {
+	for _, row := range t.Rows {
+		for _, c := range row {
+			if c.K == 'i' || c.K == 's' {
+				k := c.canon()
+				if _, ok := hashSeen[k]; !ok {
+					e := enclosure(c)
+					hashSeen[k] = e.Hash()
+					hashCells[k] = c
 				}
 			}
 		}
 	}
+}
+func hashTable() string {
+	keys := []string{}
+	for k := range hashSeen {
+		keys = append(keys, k)
+	}
+	sort.Strings(keys)
+	items := []string{}
+	for _, k := range keys {
+		v, _ := coqCell(hashCells[k])
+		items = append(items, fmt.Sprintf("(%s, %d)", v, hashSeen[k]))
+	}
+	return "Definition htbl : list (value * N) := " + vhlib.CoqListNL(items) + ".\n"
+}
+
+func (cf *caseFile) flush(sum *vhlib.Summary, dir string) {
+	if len(cf.checks) == 0 {
+		return
+	}
+	full := cf.cc.defs() + hashTable() + cf.defs.String()
+	sum.WriteCaseFile(dir, cf.name, "From SigM Require Import Base Pipe PipeCheck.", full,
+		"failing "+vhlib.CoqListNL(cf.checks), cf.ncases)
+}
+
+type failCase struct {
+	SPL     string   `json:"spl"`
+	Table   []string `json:"table_rows"`
+	Cut     []int    `json:"batch_sizes,omitempty"`
+	EofWith bool     `json:"eof_with_last_batch"`
+	Got     []string `json:"got"`
+	Want    []string `json:"want"`
+	Note    string   `json:"note,omitempty"`
+}
+
+func main() {
+	if len(os.Args) >= 2 && os.Args[1] == "worker" {
+		workerMain(os.Args[2:])
+		return
+	}
+	log.SetLevel(log.PanicLevel)
+	cfg := vhlib.ParseFlags()
+	sum := vhlib.NewSummary("one case = one (command chain, table, batching) run of the real DataProcessor chain, or one (SPL, layout) end-to-end query; " +
+		"distinct key = chain + table content + batching; non-trivial = non-empty table cut into >= 2 batches (processor level) / layout with >= 2 blocks (end to end)")
+	config.InitializeTestingConfig(filepath.Join(cfg.Out, "cfg") + "/")
+	config.SetNewQueryPipelineEnabled(true)
+	rng := vhlib.NewRng(cfg.Seed*7919 + 6)
+
+	nTables, extraCuts := 14, 3
+	if cfg.Thorough() {
+		nTables, extraCuts = 60, 8
+	}
+	specs := buildSpecs()
+	// tables per kind
+	kinds := []string{"", "distinct", "num", "xy"}
+	tables := map[string][]*Table{}
+	for _, k := range kinds {
+		tr := rng.Fork()
+		for i := 0; i < nTables; i++ {
+			n := 0
+			switch {
+			case i == 0:
+				n = 0
+			case i == 1:
+				n = 1
+			case i == 2:
+				n = 12
+			default:
+				n = 2 + tr.Intn(11)
+			}
+			if k == "xy" && n < 3 {
+				n = 3 + tr.Intn(5)
+			}
+			if k != "" && k != "xy" && i >= (nTables+1)/2 {
+				break
+			}
+			t := genTable(tr, k, n)
+			if k == "num" && i == 2 {
+				// the table of DESIGN §4.1: v_i = 7 i mod 5
+				for j := range t.Rows {
+					t.Rows[j][5] = Cell{K: 'i', I: int64((7 * j) % 5)}
+				}
+			}
+			if k == "xy" && i == 0 {
+				t = genTable(tr, k, 3)
+				for j, ab := range [][2]string{{"x", "y"}, {"y", "x"}, {"x", "y"}} {
+					t.Rows[j][2], t.Rows[j][3] = Cell{K: 's', S: ab[0]}, Cell{K: 's', S: ab[1]}
+				}
+			}
+			noteHashes(t)
+			tables[k] = append(tables[k], t)
+		}
+	}
+
+	files := map[string]*caseFile{}
+	shards := map[string]int{}
+	fileOf := func(fam string) *caseFile {
+		key := fam
+		switch fam {
+		case "where", "eval", "fields", "rename", "rex", "regex", "bin", "makemv", "mvexpand":
+			key = "rowwise"
+		case "top", "rare", "stats":
+			key = "agg"
+		case "dedupxy":
+			key = "dedup"
+		case "sswindow", "ssreset":
+			key = "sswindow"
+		}
+		if files[key] != nil && files[key].size() > 300000 { // shard
+			files[key].flush(sum, cfg.Out)
+			files[key] = nil
+			shards[key]++
+		}
+		if files[key] == nil {
+			name := "cases_" + key
+			if shards[key] > 0 {
+				name = fmt.Sprintf("cases_%s_%d", key, shards[key])
+			}
+			files[key] = newCaseFile(name)
+		}
+		return files[key]
+	}
+	tabDefined := map[string]bool{}
+
+	for si := range specs {
+		s := &specs[si]
+		cr := rng.Fork()
+		for ti, t := range tables[s.Tables] {
+			cf := fileOf(s.Family)
+			n := len(t.Rows)
+			in := t.crows()
+			base := runChain(s.SPL, t, []int{n}, false)
+			sum.Count("cmd/" + s.Family)
+			if base.Err != "" {
+				sum.Fail(s.Family+"_error", fmt.Sprintf("%q on %d rows, un-cut: %s", s.SPL, n, base.Err),
+					failCase{SPL: s.SPL, Table: rowsStr(in), Cut: []int{n}, Note: base.Err})
+				continue
+			}
+			baseRows := project(base.Rows, s.Drop)
+			// documented meaning of the un-cut run
+			if s.Doc != nil {
+				want := s.Doc(in, t.Cols)
+				if !sameOrdered(baseRows, want) {
+					cls := s.Family + "_wrong_rows"
+					if s.Family == "dedupxy" {
+						cls = "dedup_wrong_rows"
+					}
+					if s.Family == "sswindow" {
+						cls = "streamstats_window_wrong_uncut"
+					}
+					if s.DocKnown != "" && xorCollision(in, "a", "b") {
+						cls = s.DocKnown
+					}
+					sum.Fail(cls, fmt.Sprintf("%q on %d rows (single batch) returns %d rows %v; documented meaning gives %d rows %v",
+						s.SPL, n, len(baseRows), firstDiff(rowsStr(baseRows), rowsStr(want)), len(want), ""),
+						failCase{SPL: s.SPL, Table: rowsStr(in), Cut: []int{n}, Got: rowsStr(baseRows), Want: rowsStr(want)})
+				}
+			}
+			cuts := genCuts(cr, n, extraCuts)
+			type obs struct {
+				cut  []int
+				ew   bool
+				rows []CRow
+				fs   []int
+			}
+			var all []obs
+			agree := true
+			for ci, cut := range cuts {
+				ew := ci%2 == 1
+				res := runChain(s.SPL, t, cut, ew)
+				nb := 0
+				for _, k := range cut {
+					if k > 0 {
+						nb++
+					}
+				}
+				sum.Eval(fmt.Sprintf("%s|%s|%d|%v", s.SPL, s.Tables, ti, cut), n > 0 && nb >= 2)
+				sum.Count(fmt.Sprintf("batches/%d", min(len(cut), 6)))
+				rows := project(res.Rows, s.Drop)
+				ok := res.Err == "" && same(s, rows, baseRows)
+				if !ok {
+					agree = false
+					cls := s.Family + "_chunk_dependent"
+					if s.Family == "dedupxy" {
+						cls = "dedup_chunk_dependent"
+					}
+					if s.Known != "" && res.Err == "" {
+						cls = s.Known
+					}
+					sum.Fail(cls, fmt.Sprintf("%q: %d rows in batches %v (EOF with last batch: %v) give %s; the same rows in one batch give %s%s",
+						s.SPL, n, cut, ew, firstDiff(rowsStr(rows), rowsStr(baseRows)), "", errNote(res.Err)),
+						failCase{SPL: s.SPL, Table: rowsStr(in), Cut: cut, EofWith: ew, Got: rowsStr(rows), Want: rowsStr(baseRows), Note: res.Err})
+				}
+				all = append(all, obs{cut, ew, rows, res.Fetches})
+			}
+			if ti < 2 {
+				sum.Sample(map[string]interface{}{"spl": s.SPL, "table": rowsStr(in), "cuts": cuts, "uncut_result": rowsStr(baseRows)})
+			}
+			// ---- model comparison ----
+			if s.Kind == "" {
+				continue
+			}
+			tname := fmt.Sprintf("t_%s_%d", strings.ReplaceAll(s.Tables+"g", "-", ""), ti)
+			if !tabDefined[cf.name+tname] {
+				ts, ok := cf.cc.rows(t.crowsFull())
+				if !ok {
+					continue
+				}
+				fmt.Fprintf(&cf.defs, "Definition %s : batch := %s.\n", tname, ts)
+				tabDefined[cf.name+tname] = true
+			}
+			exp, ok := cf.cc.rows(baseRows)
+			if !ok {
+				continue
+			}
+			cutsC := coqCuts(append([][]int{{n}}, cuts...))
+			switch s.Kind {
+			case "chk", "perm":
+				fn := "chk"
+				if s.Kind == "perm" {
+					fn = "chk_perm"
+				}
+				if !agree {
+					continue // the oracle already reports it; the model is chunk invariant by theorem
+				}
+				cf.checks = append(cf.checks, fmt.Sprintf("%s %s %s %s %s", fn, s.Model(cf.cc), tname, cutsC, exp))
+				cf.ncases += len(cuts) + 1
+				if s.FetchFl != "" {
+					items := []string{}
+					for _, o := range all {
+						items = append(items, fmt.Sprintf("(%s, %v, %s)", coqNats(o.cut), o.ew, coqNats(o.fs)))
+					}
+					p := "proc_of"
+					if s.FetchFl == "bottleneck_fl" {
+						p = "proc_of_bottleneck"
+					}
+					cf.checks = append(cf.checks, fmt.Sprintf("chk_fetch (%s %s) %s %s %s", p, s.Model(cf.cc), s.FetchFl, tname, vhlib.CoqList(items)))
+					cf.ncases += len(all)
+				}
+			case "each":
+				items := []string{fmt.Sprintf("(%s, %s)", coqNats([]int{n}), exp)}
+				for _, o := range all {
+					e, ok := cf.cc.rows(o.rows)
+					if ok {
+						items = append(items, fmt.Sprintf("(%s, %s)", coqNats(o.cut), e))
+					}
+				}
+				cf.checks = append(cf.checks, fmt.Sprintf("chk_each %s %s %s", s.Model(cf.cc), tname, vhlib.CoqListNL(items)))
+				cf.ncases += len(items)
+			case "chain":
+				if !agree {
+					continue
+				}
+				cf.checks = append(cf.checks, fmt.Sprintf("chk_chain %s %s %s %s", s.Chain(cf.cc), tname, cutsC, exp))
+				cf.ncases += len(cuts) + 1
+			case "fillnull":
+				if !agree {
+					continue
+				}
+				cf.checks = append(cf.checks, fmt.Sprintf("chk_fillnull_all (VStr %s) %s %s %s", vhlib.CoqStr("0"), tname, cutsC, exp))
+				cf.ncases += 2 * (len(cuts) + 1)
+			case "rowwise":
+				if !agree {
+					continue
+				}
+				// the row function as observed on one-row tables
+				items := []string{}
+				okAll := true
+				seen := map[string]bool{}
+				for i := range t.Rows {
+					k := in[i].String()
+					if seen[k] {
+						continue
+					}
+					seen[k] = true
+					one := runChain(s.SPL, t.sub(i, i+1), []int{1}, false)
+					if one.Err != "" {
+						okAll = false
+						break
+					}
+					a, ok1 := cf.cc.row(in[i])
+					b, ok2 := cf.cc.rows(project(one.Rows, s.Drop))
+					if !ok1 || !ok2 {
+						okAll = false
+						break
+					}
+					items = append(items, fmt.Sprintf("(%s, %s)", a, b))
+				}
+				if !okAll {
+					sum.Count("rowwise_not_encodable/" + s.Family)
+					continue
+				}
+				ftab := "(@nil (row * list row))"
+				if len(items) > 0 {
+					ftab = vhlib.CoqListNL(items)
+				}
+				cf.checks = append(cf.checks, fmt.Sprintf("chk (rowwise_cmd (f_of_table %s)) %s %s %s", ftab, tname, cutsC, exp))
+				cf.ncases += len(cuts) + 1
+			}
+		}
+	}
+	names := []string{}
+	for k := range files {
+		names = append(names, k)
+	}
+	sort.Strings(names)
+	for _, k := range names {
+		files[k].flush(sum, cfg.Out)
+	}
+
+	runE2E(cfg, sum, rng.Fork())
+	sum.Write(cfg.Out)
+}
+
+func min(a, b int) int {
+	if a < b {
+		return a
+	}
+	return b
+}
+func errNote(e string) string {
+	if e == "" {
+		return ""
+	}
+	return " [error: " + e + "]"
+}
+func firstDiff(got, want []string) string {
+	for i := 0; i < len(got) || i < len(want); i++ {
+		g, w := "<none>", "<none>"
+		if i < len(got) {
+			g = got[i]
+		}
+		if i < len(want) {
+			w = want[i]
+		}
+		if g != w {
+			return fmt.Sprintf("row %d = {%s} instead of {%s} (%d vs %d rows)", i, g, w, len(got), len(want))
+		}
+	}
+	return "the same rows"
+}
+
+// the input has two rows with different (f1,f2) value combinations whose XOR of the real
+// per-field hashes (CValueEnclosure.Hash) is the same: (x,y)/(y,x), or (x,x)/(y,y) (both 0)
+func xorCollision(in []CRow, f1, f2 string) bool {
+	byKey := map[uint64]string{}
+	for _, r := range in {
+		a, b := r.get(f1), r.get(f2)
+		if a.K == 0 || b.K == 0 {
+			continue
+		}
+		ea, eb := enclosure(a), enclosure(b)
+		k := ea.Hash() ^ eb.Hash()
+		t := a.canon() + "|" + b.canon()
+		if prev, ok := byKey[k]; ok && prev != t {
+			return true
+		}
+		byKey[k] = t
+	}
+	return false
+}
+
+// ======================= end to end =======================
+type e2eEvent struct {
+	Id int
+	A  string
+	G  string
+	V  int
+	S  string
+}
+type e2eLayout struct {
+	Name        string
+	FlushEvery  int // events per flush (block); 0 = one flush at the end
+	RotateAfter int // rotate the segment after this many events; 0 = never
+	Procs       int // GOMAXPROCS of the worker
+}
+type e2eScript struct {
+	Events  []e2eEvent
+	Layout  e2eLayout
+	Queries []string
+}
+type e2eAnswer struct {
+	Err  string
+	Hits []string // canonical rows, in order
+	Meas []string // canonical buckets, in order
+}
+
+const e2eBase = uint64(1700000000000)
+
+func initNode(dir string) error {
+	config.InitializeTestingConfig(dir + "/")
+	config.SetNewQueryPipelineEnabled(true)
+	limit.InitMemoryLimiter()
+	writer.InitWriterNode()
+	if err := vtable.InitVTable(serverutils.GetMyIds); err != nil {
+		return err
+	}
+	if err := query.InitQueryNode(serverutils.GetMyIds, serverutils.ExtractKibanaRequests); err != nil {
+		return err
+	}
+	query.InitMaxRunningQueries()
+	go query.PullQueriesToRun(context.Background())
+	return nil
+}
+
+func canonAny(v interface{}) string {
+	switch x := v.(type) {
+	case nil:
+		return "null"
+	case float64:
+		return strconv.FormatFloat(x, 'g', -1, 64)
+	case int64:
+		return strconv.FormatInt(x, 10)
+	case uint64:
+		return strconv.FormatUint(x, 10)
+	case int:
+		return strconv.Itoa(x)
+	case json.Number:
+		return x.String()
+	case string:
+		if f, err := strconv.ParseFloat(x, 64); err == nil {
+			return strconv.FormatFloat(f, 'g', -1, 64)
+		}
+		return x
+	default:
+		return fmt.Sprintf("%v", x)
+	}
+}
+
+func workerMain(args []string) {
+	log.SetLevel(log.PanicLevel)
+	if len(args) < 3 {
+		os.Exit(3)
+	}
+	dir, scriptPath, outPath := args[0], args[1], args[2]
+	b, err := os.ReadFile(scriptPath)
+	if err != nil {
+		os.Exit(3)
+	}
+	var sc e2eScript
+	if err := json.Unmarshal(b, &sc); err != nil {
+		os.Exit(3)
+	}
+	if err := initNode(dir); err != nil {
+		fmt.Fprintln(os.Stderr, "init:", err)
+		os.Exit(4)
+	}
+	zero := time.Duration(0)
+	var sb strings.Builder
+	pending := 0
+	flush := func() {
+		if pending == 0 {
+			return
+		}
+		_, _, err := eswriter.HandleBulkBody([]byte(sb.String()), nil, 1, 0, false)
+		if err != nil {
+			fmt.Fprintln(os.Stderr, "bulk:", err)
+			os.Exit(5)
+		}
+		writer.FlushWipBufferToFile(&zero, &zero)
+		sb.Reset()
+		pending = 0
+	}
+	for i, e := range sc.Events {
+		fmt.Fprintf(&sb, "{\"index\":{\"_index\":\"c06\"}}\n")
+		fmt.Fprintf(&sb, "{\"timestamp\":%d,\"id\":%d,\"a\":%q,\"g\":%q,\"v\":%d,\"s\":%q}\n", e2eBase+uint64(e.Id)*1000, e.Id, e.A, e.G, e.V, e.S)
+		pending++
+		if sc.Layout.FlushEvery > 0 && pending >= sc.Layout.FlushEvery {
+			flush()
+		}
+		if sc.Layout.RotateAfter > 0 && (i+1)%sc.Layout.RotateAfter == 0 {
+			flush()
+			writer.ForceRotateSegmentsForTest()
+		}
+	}
+	flush()
+	answers := make([]e2eAnswer, len(sc.Queries))
+	for qi, q := range sc.Queries {
+		answers[qi] = runE2EQuery(uint64(qi+10), q)
+	}
+	out, _ := json.Marshal(answers)
+	_ = os.WriteFile(outPath, out, 0o644)
+	os.Exit(0)
+}
+
+func runE2EQuery(qid uint64, text string) e2eAnswer {
+	req := map[string]interface{}{
+		"searchText": text, "indexName": "c06", "startEpoch": e2eBase - 1000, "endEpoch": e2eBase + 100000000,
+		"size": uint64(10000), "from": uint64(0), "queryLanguage": "Splunk QL", "state": "query",
+	}
+	ch := make(chan e2eAnswer, 1)
+	go func() {
+		defer func() {
+			if r := recover(); r != nil {
+				ch <- e2eAnswer{Err: fmt.Sprintf("panic: %v", r)}
+			}
+		}()
+		resp, _, _, err := pipesearch.ParseAndExecutePipeRequest(req, qid, 0, time.Now(), "", nil)
+		if err != nil {
+			ch <- e2eAnswer{Err: "error: " + err.Error()}
+			return
+		}
+		if resp == nil {
+			ch <- e2eAnswer{Err: "nil response"}
+			return
+		}
+		var a e2eAnswer
+		if len(resp.Errors) > 0 {
+			a.Err = "resp.Errors: " + strings.Join(resp.Errors, "; ")
+		}
+		for _, h := range resp.Hits.Hits {
+			keys := []string{}
+			for k := range h {
+				if k == "_index" || k == "timestamp" {
+					continue
+				}
+				if h[k] == nil {
+					continue
+				}
+				keys = append(keys, k)
+			}
+			sort.Strings(keys)
+			parts := []string{}
+			for _, k := range keys {
+				parts = append(parts, k+"="+canonAny(h[k]))
+			}
+			a.Hits = append(a.Hits, strings.Join(parts, ","))
+		}
+		for _, bkt := range resp.MeasureResults {
+			keys := []string{}
+			for k := range bkt.MeasureVal {
+				keys = append(keys, k)
+			}
+			sort.Strings(keys)
+			parts := []string{"by=" + strings.Join(bkt.GroupByValues, "/")}
+			for _, k := range keys {
+				parts = append(parts, k+"="+canonAny(bkt.MeasureVal[k]))
+			}
+			a.Meas = append(a.Meas, strings.Join(parts, ","))
+		}
+		ch <- a
+	}()
+	select {
+	case a := <-ch:
+		return a
+	case <-time.After(30 * time.Second):
+		return e2eAnswer{Err: "timeout"}
+	}
+}
+
+type e2eQuery struct {
+	SPL    string
+	Family string
+	Mode   int    // cmpOrdered / cmpMultiset / cmpCounts
+	Known  string // known class
+}
+
+func e2eQueries() []e2eQuery {
+	return []e2eQuery{
+		{"* | head 5", "head", cmpOrdered, ""},
+		{"* | tail 3", "tail", cmpOrdered, ""},
+		{"* | dedup a", "dedup", cmpOrdered, ""},
+		{"* | dedup 2 a g", "dedup", cmpOrdered, ""},
+		{"* | dedup g consecutive=true", "dedup", cmpOrdered, ""},
+		{"* | where v>1 | eval w=v*2 | fields id, w", "rowwise", cmpOrdered, ""},
+		{"* | rename a as aa | fillnull value=0 v | fields id, aa, v", "rowwise", cmpOrdered, ""},
+		{`* | rex field=s "k(?<kn>\d+)=" | fields id, kn`, "rex", cmpOrdered, ""},
+		{`* | eval q=1 | regex s="k1" | fields id, s`, "regex", cmpOrdered, ""},
+		{"* | bin span=2 v | fields id, v", "bin", cmpOrdered, ""},
+		{"* | streamstats count as c | fields id, c", "streamstats", cmpOrdered, ""},
+		{"* | streamstats sum(v) as sv by a | fields id, a, sv", "streamstats", cmpOrdered, ""},
+		{"* | streamstats window=2 global=false sum(v) as sv by g | fields id, sv", "streamstats", cmpOrdered, ""},
+		{"* | sort v, id | head 4 | fields id, v", "sort", cmpOrdered, ""},
+		{"* | sort -id | tail 2 | fields id", "sort", cmpOrdered, ""},
+		{"* | top a", "top", cmpCounts, ""},
+		{"* | rare g", "rare", cmpCounts, ""},
+		{"* | stats count, sum(v) by a", "stats", cmpMultiset, ""},
+		{"* | stats count", "stats", cmpMultiset, ""},
+		{"* | dedup a | head 2 | fields id, a", "chain", cmpOrdered, ""},
+		{"* | where v>0 | streamstats count as c | tail 3 | fields id, c", "chain", cmpOrdered, ""},
+		{`* | makemv delim=" " s | mvexpand s | fields id, s | head 6`, "mvexpand", cmpOrdered, ""},
+		{"* | streamstats window=3 sum(v) as sv | fields id, sv", "sswindow", cmpOrdered, "streamstats_window_batch_dependent"},
+		{"* | streamstats reset_on_change=true count as c by g | fields id, g, c", "ssreset", cmpOrdered, "streamstats_reset_on_change_batch_dependent"},
+		// chains that SetupQueryParallelism clones GOMAXPROCS times and merges
+		{"* | where v>=0 | stats count, sum(v) by a", "parallel_stats", cmpMultiset, ""},
+		{"* | fillnull value=0 v | eval w=v*2 | stats sum(w), count by g", "parallel_stats", cmpMultiset, ""},
+		{"* | where v>0 | sort -v, id | fields id, v", "parallel_sort", cmpOrdered, ""},
+		{"* | eval w=v*2 | sort w, -id | head 5 | fields id, w", "parallel_sort", cmpOrdered, ""},
+		{"* | eval w=v*2 | top a", "parallel_top", cmpCounts, ""},
+		{"* | where v>=0 | rare g", "parallel_top", cmpCounts, ""},
+	}
+}
+
+func runE2E(cfg vhlib.Config, sum *vhlib.Summary, r *vhlib.Rng) {
+	nData := 2
+	if cfg.Thorough() {
+		nData = 8
+	}
+	qs := e2eQueries()
+	texts := make([]string, len(qs))
+	for i, q := range qs {
+		texts[i] = q.SPL
+	}
+	for d := 0; d < nData; d++ {
+		n := 12
+		if d > 0 {
+			n = 9 + r.Intn(16)
+		}
+		evs := make([]e2eEvent, n)
+		g := "p"
+		for i := range evs {
+			if !r.Chance(60) {
+				g = vhlib.Pick(r, []string{"p", "q"})
+			}
+			v := r.Intn(7)
+			if d == 0 {
+				v = (7 * i) % 5
+			}
+			evs[i] = e2eEvent{Id: i, A: vhlib.Pick(r, []string{"x", "y", "z"}), G: g, V: v, S: fmt.Sprintf("k%d=w%d u%d", r.Intn(4), r.Intn(3), i)}
+		}
+		layouts := []e2eLayout{
+			{"one_block", 0, 0, 1},
+			{"one_block_p4", 0, 0, 4},
+			{"blocks_of_2", 2, 0, 1},
+			{"blocks_of_5_two_segments", 5, 10, 1},
+			{"blocks_of_5_two_segments_p4", 5, 10, 4},
+			{"blocks_of_1_segments_of_4_p2", 1, 4, 2},
+		}
+		if d > 0 {
+			layouts = append(layouts, e2eLayout{"random", 1 + r.Intn(6), 3 + r.Intn(9), 1 + r.Intn(4)})
+		}
+		answers := make([][]e2eAnswer, len(layouts))
+		errs := make([]string, len(layouts))
+		var wg sync.WaitGroup
+		sem := make(chan struct{}, 4)
+		for li := range layouts {
+			wg.Add(1)
+			go func(li int) {
+				defer wg.Done()
+				sem <- struct{}{}
+				defer func() { <-sem }()
+				answers[li], errs[li] = runWorker(cfg, d, li, e2eScript{Events: evs, Layout: layouts[li], Queries: texts})
+			}(li)
+		}
+		wg.Wait()
+		if errs[0] != "" {
+			sum.HarnessError("e2e worker (reference layout) failed: " + errs[0])
+			continue
+		}
+		for li := 1; li < len(layouts); li++ {
+			if errs[li] != "" {
+				sum.HarnessError(fmt.Sprintf("e2e worker (layout %s) failed: %s", layouts[li].Name, errs[li]))
+				continue
+			}
+			for qi, q := range qs {
+				a, b := answers[0][qi], answers[li][qi]
+				sum.Eval(fmt.Sprintf("e2e|%d|%s|%s", d, layouts[li].Name, q.SPL), true)
+				sum.Count("e2e/" + q.Family)
+				ok := a.Err == b.Err
+				if ok {
+					switch q.Mode {
+					case cmpOrdered:
+						ok = strings.Join(a.Hits, "\n") == strings.Join(b.Hits, "\n") && sameStrMultiset(a.Meas, b.Meas)
+					case cmpMultiset:
+						ok = sameStrMultiset(a.Hits, b.Hits) && sameStrMultiset(a.Meas, b.Meas)
+					case cmpCounts:
+						ok = countSeq(a.Meas) == countSeq(b.Meas) && countSeq(a.Hits) == countSeq(b.Hits)
+					}
+				}
+				if !ok {
+					cls := "e2e_" + q.Family + "_layout_dependent"
+					if q.Known != "" && a.Err == "" && b.Err == "" {
+						cls = q.Known
+					}
+					got, want := append(append([]string{}, b.Hits...), b.Meas...), append(append([]string{}, a.Hits...), a.Meas...)
+					sum.Fail(cls, fmt.Sprintf("%q over %d events: layout %s (flush every %d, rotate after %d, GOMAXPROCS %d) gives %s; one block gives %s %s%s",
+						q.SPL, n, layouts[li].Name, layouts[li].FlushEvery, layouts[li].RotateAfter, layouts[li].Procs, firstDiff(got, want), "", a.Err, b.Err),
+						map[string]interface{}{"spl": q.SPL, "events": evs, "layout": layouts[li], "got": got, "want": want, "err_ref": a.Err, "err": b.Err})
+				}
+			}
+		}
+		if d == 0 {
+			sum.Sample(map[string]interface{}{"e2e_events": len(evs), "layouts": layouts, "queries": texts, "reference_answer_head": answers[0][0]})
+		}
+	}
+}
+
+func sameStrMultiset(a, b []string) bool {
+	x, y := append([]string{}, a...), append([]string{}, b...)
+	sort.Strings(x)
+	sort.Strings(y)
+	return strings.Join(x, "\n") == strings.Join(y, "\n") && len(x) == len(y)
+}
+func countSeq(rows []string) string {
+	out := []string{}
+	for _, r := range rows {
+		for _, p := range strings.Split(r, ",") {
+			if strings.HasPrefix(p, "count=") || strings.HasPrefix(p, "count(*)=") {
+				out = append(out, p)
+			}
+		}
+	}
+	return strings.Join(out, ";")
+}
+
+func runWorker(cfg vhlib.Config, d, li int, sc e2eScript) ([]e2eAnswer, string) {
+	dir := filepath.Join(cfg.Out, fmt.Sprintf("e2e_%d_%d", d, li))
+	_ = os.MkdirAll(dir, 0o755)
+	sp := filepath.Join(dir, "script.json")
+	op := filepath.Join(dir, "answers.json")
+	b, _ := json.Marshal(sc)
+	_ = os.WriteFile(sp, b, 0o644)
+	run := func() ([]e2eAnswer, string) {
+		_ = os.RemoveAll(filepath.Join(dir, "data"))
+		_ = os.Remove(op)
+		ctx, cancel := context.WithTimeout(context.Background(), 90*time.Second)
+		defer cancel()
+		cmd := exec.CommandContext(ctx, os.Args[0], "worker", filepath.Join(dir, "data"), sp, op)
+		cmd.Env = append(os.Environ(), fmt.Sprintf("GOMAXPROCS=%d", sc.Layout.Procs))
+		out, err := cmd.CombinedOutput()
+		if err != nil {
+			tail := string(out)
+			if len(tail) > 400 {
+				tail = tail[len(tail)-400:]
+			}
+			return nil, fmt.Sprintf("%v: %s", err, tail)
+		}
+		ab, err := os.ReadFile(op)
+		if err != nil {
+			return nil, "no answers file"
+		}
+		var as []e2eAnswer
+		if err := json.Unmarshal(ab, &as); err != nil || len(as) != len(sc.Queries) {
+			return nil, "bad answers file"
+		}
+		return as, ""
+	}
+	as, e := run()
+	if e != "" { // a failure under parallel load is re-run alone before it counts
+		as, e = run()
+	}
+	_ = os.RemoveAll(filepath.Join(dir, "data"))
+	return as, e
 }
